@@ -147,7 +147,25 @@ pub fn generate(thorough: bool, seed: u64, out: &mut dyn Write) {
         }
     }
     for s in cmp_seeds(&mut rng) {
-        mutate(&s, &mut rng, thorough, out);
+        if thorough {
+            mutate(&s, &mut rng, thorough, out);
+        } else {
+            // the file is 170 KB of padding before a table of floats: the seed, the structure boundaries
+            // +-1 and a few random cuts are what matters
+            emit(out, "cmp", &s.bytes, "");
+            let n = s.bytes.len();
+            let mut pts: Vec<usize> = vec![0, 1, 0x2a800 - 1, 0x2a800, 0x2a800 + 1, 0x2a800 + 55, 0x2a800 + 56, 0x2a800 + 57, n - 1];
+            for _ in 0..6 {
+                pts.push(rng.below(n as u64) as usize);
+            }
+            pts.sort();
+            pts.dedup();
+            for k in pts {
+                if k < n {
+                    emit(out, "cmp", &s.bytes[..k], "");
+                }
+            }
+        }
     }
     blobs("cmp", b"", &mut rng, 10, false, out);
     for subrows in [1u16, 2, 3] {
